@@ -29,6 +29,21 @@ ASSUMPTIONS = [
 PROFILES = ["fibers"]
 
 SCENARIOS = [
+    ("yield-inside-finally-while-an-exception-propagates",
+     'var f = Fiber.new(|| { try { try { throw "boom"; } finally { print("cleanup"); Fiber.yield("in finally"); print("resumed in finally"); } print("not here"); } catch e { print("caught " + e); } return "done"; });\nprint(f.call()); print("main between"); print(f.call()); print(f.has_finished());\n',
+     ["cleanup", "in finally", "main between", "resumed in finally", "caught boom", "done", "true"], "ok"),
+    ("yield-inside-two-nested-finally-blocks-while-propagating",
+     'var f = Fiber.new(|| { try { try { try { throw "bang"; } finally { Fiber.yield("y1"); } } finally { Fiber.yield("y2"); } } catch e { print("inner caught " + e); } return "done"; });\nprint(f.call()); print(f.call()); print(f.call());\n',
+     ["y1", "y2", "inner caught bang", "done"], "ok"),
+    ("yield-in-a-call-made-by-a-finally-block-caught-in-the-caller-frame",
+     'fn pause(v) { return Fiber.yield(v); }\nfn risky() { try { throw "deep"; } finally { print("got " + String.from(pause("from finally"))); } }\nvar f = Fiber.new(|| { try { risky(); print("not here"); } catch e { print("caller frame caught " + e); } return "done"; });\nprint(f.call()); print(f.call("again"));\n',
+     ["from finally", "got again", "caller frame caught deep", "done"], "ok"),
+    ("variable-captured-before-a-yield-stays-shared-after-it",
+     'var log = [];\nvar f = Fiber.new(|| { var loc = 0; var get = || loc; var bump = || { loc = loc + 100; return loc; }; log.push(get); log.push(bump);\n  Fiber.yield("first"); loc = loc + 1; print("fiber sees " + String.from(get())); Fiber.yield("second"); print("fiber sees " + String.from(loc)); loc = loc + 10; return "end"; });\nprint(f.call()); print(log[0]()); print(f.call()); print(log[0]()); print(log[1]()); print(f.call()); print(log[0]());\n',
+     ["first", "0", "fiber sees 1", "second", "1", "101", "fiber sees 101", "end", "111"], "ok"),
+    ("propagation-state-does-not-outlive-the-handled-exception",
+     'var f = Fiber.new(|| { try { try { throw "boom"; } finally { Fiber.yield("in finally"); } } catch e { print("caught " + e); }\n  try { print("second try"); } finally { print("second finally"); } print("after"); return "done"; });\nprint(f.call()); print(f.call());\ntry { print("main try"); } catch e { print("main caught?"); }\n',
+     ["in finally", "caught boom", "second try", "second finally", "after", "done", "main try"], "ok"),
     ("handover-all-directions",
      'var f = Fiber.new(|a| { print("start " + a); var b = Fiber.yield("y1"); print("got " + b); var c = Fiber.yield("y2"); print("got " + c); return "done"; });\n'
      'print(f.call("p")); print(f.has_finished()); print(f.call("r1")); print(f.call("r2")); print(f.has_finished());',
